@@ -39,7 +39,16 @@ type Sc struct {
 	Split     bool // shard inside the scenario (large trees); otherwise whole scenario goes to one worker
 	BudgetS   int  // per-scenario wall-clock cap in seconds (0 = tier default); hitting it is reported, never a violation
 	TableBits uint // log2 of the shared visited table size (0 = 24)
+	// Exists: reachability obligations - for each entry at least one explored execution of this scenario must report
+	// the harness counter ReachKey(scenario name, entry) (judged only when the scenario was explored completely).
+	// Used where a universal oracle would need a fairness assumption: "some schedule within the bound makes progress".
+	Exists []string
 }
+
+// ReachKey is the harness counter an execution reports when it fulfils a reachability obligation.
+func ReachKey(scenario, what string) string { return "reach:" + scenario + ": " + what }
+
+const existsPrefix = "exists :: "
 
 // Property describes one check.
 type Property struct {
@@ -108,7 +117,7 @@ func tierBudget(p Property, tier string) int {
 	if p.QuickBudgetS > 0 {
 		return p.QuickBudgetS
 	}
-	return 150
+	return 600
 }
 
 func Main(p Property) {
@@ -453,6 +462,32 @@ func runParent(p Property, scs []Sc, tier string, seed int64, n int, evidencePat
 		}
 	}
 
+	// reachability obligations (counters are summed over all executions of all workers)
+	for _, sc := range scs {
+		m := byName[sc.Name]
+		if m == nil || !m.Complete {
+			continue
+		}
+		for _, what := range sc.Exists {
+			if counters[ReachKey(sc.Name, what)] > 0 {
+				continue
+			}
+			v := explore.Violation{Scenario: sc.Name, Signature: existsPrefix + sc.Name + " :: " + what,
+				Messages: []string{fmt.Sprintf("unreachable | none of the %d explored executions of this scenario (all schedules within its bound) reached: %s", m.Executions, what)}}
+			isKnown := false
+			for i, k := range known {
+				if k.Property == p.ID && knownRe[i].MatchString(v.Signature) {
+					knownHit[i] = true
+					isKnown = true
+					break
+				}
+			}
+			if !isKnown {
+				newViol = append(newViol, v)
+			}
+		}
+	}
+
 	// one concrete schedule written out: the default schedule of the first scenario (what a "case" looks like)
 	if len(scs) > 0 {
 		sc := scs[0].Scenario
@@ -675,6 +710,9 @@ func writeReplay(p Property, tier string, v explore.Violation) string {
 	path := filepath.Join(VerifDir, "replays", fmt.Sprintf("%s-%x.json", p.ID, h[:5]))
 	// attach a readable trace by replaying once here (also a determinism check)
 	for _, sc := range allScenarios(p) {
+		if strings.HasPrefix(v.Signature, existsPrefix) {
+			break // nothing to replay: the violation is the absence of an execution (the replay re-explores the scenario)
+		}
 		if sc.Name == v.Scenario {
 			m1, tr, _ := explore.Replay(sc.Scenario, v.Choices)
 			m2, _, _ := explore.Replay(sc.Scenario, v.Choices)
@@ -719,6 +757,22 @@ func doReplay(p Property, path string) int {
 	for _, sc := range allScenarios(p) {
 		if sc.Name != rf.V.Scenario {
 			continue
+		}
+		if strings.HasPrefix(rf.V.Signature, existsPrefix) {
+			// re-explore the scenario in this process and look for the execution again
+			st := explore.Explore(sc.Scenario, explore.Options{Deadline: time.Now().Add(30 * time.Minute)})
+			what := strings.TrimPrefix(rf.V.Signature, existsPrefix+sc.Name+" :: ")
+			if !st.Complete {
+				fmt.Fprintf(os.Stderr, "ENGINE-ERROR: re-exploration of %s incomplete\n", sc.Name)
+				return 2
+			}
+			if st.Counters[ReachKey(sc.Name, what)] > 0 {
+				fmt.Println("replay: no violation on this tree")
+				return 0
+			}
+			fmt.Printf("VIOLATION property=%s replay=%s\n", p.ID, path)
+			fmt.Printf("  unreachable | none of the %d explored executions reached: %s\n", st.Executions, what)
+			return 1
 		}
 		m1, tr, _ := explore.Replay(sc.Scenario, rf.V.Choices)
 		m2, _, _ := explore.Replay(sc.Scenario, rf.V.Choices)
